@@ -7,7 +7,10 @@ ID = 'C03'
 PROPS_FILE = 'theories/Props/C03.v'
 PROPS_MODULE = 'Props.C03'
 COQ_TARGETS = ['theories/Extract/ExtractSyntax.vo']
-REQUIRED_THEOREMS = ['C03_ok_iff_no_junk', 'C03_accounting', 'C03_order', 'C03_admitted_not_junk', 'C03_runtime_ok_iff_no_junk', 'C03_runtime_accounting', 'C03_runtime_order', 'C03_runtime_admitted_not_junk']
+EXTRA_PROPS = [('theories/Props/C03iso.v', 'Props.C03iso')]
+REQUIRED_THEOREMS = ['C03_ok_iff_no_junk', 'C03_accounting', 'C03_order', 'C03_admitted_not_junk', 'C03_runtime_ok_iff_no_junk', 'C03_runtime_accounting', 'C03_runtime_order', 'C03_runtime_admitted_not_junk',
+                     'C03_suffix_independence', 'C03_entries_after_unchanged', 'C03_entries_before_unchanged', 'C03_containment',
+                     'C03_containment_wellformed', 'C03_entry_error_is_junk']
 MODEL = 'syn'
 HARNESS_BINS = ['syn_run']
 ANCHORS = ['fluent-syntax/src/parser/core.rs', 'fluent-syntax/src/parser/runtime.rs', 'fluent-syntax/src/parser/helper.rs',
@@ -215,13 +218,22 @@ def nontrivial(case, out):
     return out if ('(junk ' in out and ('(msg ' in out or '(term ' in out)) else None
 
 
+PARTIAL = ('containment is proved as: suffix independence of every parsing function and of both entry loops (exact equality up to a position '
+           'shift), entries AFTER a damaged span are what parse(post) yields (modulo the pending-comment rule), entries BEFORE it are '
+           'unchanged when the prefix is error-free and the next entry starts with a letter or "-", and each of the 16 documented violation '
+           'shapes makes get_entry return Err (hence Junk).  Hypotheses that remain: the loop reaches a head exactly at the start of post '
+           'in both runs (checked executably by loop_heads; holds for column-0 entries in all damage-injection cases of the oracle), and '
+           'post does not start with a UTF-8 continuation byte.')
+
 MANIFEST = {
-    'text': 'Rocq theorems over ALL inputs about the entry loops of the parser model: errors = [] iff no Junk; Junk and errors '
-            'correspond one to one in order; each Junk is the source slice of its error, starting at a line start, ending where the '
-            'next entry begins, non-empty, containing the error position. Containment is decided by the correspondence + oracle on '
-            'damage cases. Tied to the code by the parse_all/damage correspondence.',
-    'note': 'Trusted: as C01. The isolation half (damaging one entry leaves the others unchanged) is proved only as far as the '
-            'theorems named in Props/C03.v; the composite is covered by the damage oracle on the implementation.',
-    'technique': 'Rocq proof (loop invariant of the entry loops) + differential correspondence check + damage-injection oracle',
-    'design_ref': 'DESIGN.md §4 C03',
+    'text': 'Rocq theorems over ALL inputs about the entry loops of the parser model. Accounting: errors = [] iff no Junk; Junk and '
+            'errors correspond one to one in order; each Junk is the source slice of its error, starting at a line start, ending where '
+            'the next entry begins, non-empty, containing the error position. Containment: what the parser does from a loop head on '
+            'depends only on the bytes from there on (suffix independence, all functions); entries after and before a damaged entry are '
+            'unchanged (C03_containment, C03_containment_wellformed); every documented violation yields Err/Junk (16 lemmas). Tied to the '
+            'code by the parse_all/damage correspondence and the damage-injection oracle on the real parser.',
+    'note': 'Trusted: as C01. Remaining hypotheses of the containment theorems are listed in PARTIAL (loop head at the start of the '
+            'following entry in both runs; executable check loop_heads).',
+    'technique': 'Rocq proof (loop invariants, translation invariance of the parser model) + differential correspondence check + damage-injection oracle',
+    'design_ref': 'DESIGN.md §4 C03, §10',
 }
